@@ -33,3 +33,9 @@ Definition rstatus_ok (s : rstatus) : bool := match s with ROk => true | _ => fa
 (* NIfTI array layouts: scalar image (dim[0] = D); ITK's vector layout (dim[0] = 5, dim[5] = C, intent 1007);
    the layout deepali's own writer hands to nibabel (dim[0] = D + 1, channels on the axis after the spatial ones) *)
 Inductive nlayout := LScalar | LItkVector | LOwn.
+
+(* I/O backends behind a file name suffix: native MetaImage code, native NIfTI code (nibabel), SimpleITK; BNone = nothing
+   was reached, BError = the dispatcher raised before reaching a backend *)
+Inductive backend := BMeta | BNifti | BSitk | BNone | BError.
+Definition backend_eqb (a b : backend) : bool :=
+  match a, b with BMeta, BMeta | BNifti, BNifti | BSitk, BSitk | BNone, BNone | BError, BError => true | _, _ => false end.
